@@ -12,6 +12,9 @@ open AGV AGV.C05
 #print axioms rule_ref_equiv_vars
 #print axioms rule_ref_equiv_vars_iff
 #print axioms varFree_is_varDisjoint
+#print axioms matchRule_total
+#print axioms rule_ref_equiv_total
+#print axioms rule_ref_equiv_total'
 #print axioms env_irrelevant_env
 #print axioms pattern_fresh_env
 #print axioms varDisjoint_example
